@@ -30,16 +30,19 @@ enum Owned {
     NonContig,
     Spare,
     CapAppend,
+    /// exact contiguous owned operand, the other operands passed as non-contiguous views
+    ExactOthersStrided,
 }
 
 impl Owned {
-    const ALL: [Owned; 4] = [Owned::Exact, Owned::NonContig, Owned::Spare, Owned::CapAppend];
+    const ALL: [Owned; 5] = [Owned::Exact, Owned::NonContig, Owned::Spare, Owned::CapAppend, Owned::ExactOthersStrided];
     fn name(self) -> &'static str {
         match self {
             Owned::Exact => "exact",
             Owned::NonContig => "noncontig",
             Owned::Spare => "spare-capacity",
             Owned::CapAppend => "with_capacity+append",
+            Owned::ExactOthersStrided => "exact+others-strided",
         }
     }
 }
@@ -61,7 +64,7 @@ fn make_owned(v: &Value, kind: Owned, seed: u32) -> Option<Value> {
         return if kind == Owned::Exact { Some(v.clone()) } else { None };
     }
     match kind {
-        Owned::Exact => Some(fresh_contiguous(v)),
+        Owned::Exact | Owned::ExactOthersStrided => Some(fresh_contiguous(v)),
         Owned::NonContig => {
             let shape = v.shape().to_vec();
             let k = [Kind::Permuted, Kind::Stepped, Kind::Mixed][(hash32(seed, 1) % 3) as usize];
@@ -146,16 +149,53 @@ fn check_node(built: Option<&Built>, run: &NodeRun, seed: u32, st: &mut Stats) -
                 continue;
             }
             let ptrs: Vec<usize> = in_place.iter().map(|(_, v)| data_ptr(v)).collect();
-            // Bit-equality can only be demanded when the operands have the same memory layout as in the
-            // normal run; for accumulating kernels (C14's class table) a non-contiguous owned operand may
-            // legitimately select another blocking path and hence another float association order.
-            let any_noncontig = in_place.iter().any(|(_, v)| !is_contiguous_value(v));
-            let mode = if any_noncontig { vc_ops::classes::layout_cmp(run.op) } else { FloatCmp::Bits };
+
             let owned_desc: Vec<String> = in_place
                 .iter()
                 .map(|(p, v)| format!("input {p}: shape {:?} contiguous={} ", v.shape().as_ref(), is_contiguous_value(v)))
                 .collect();
-            let views: Vec<Option<ValueView>> = run.inputs.iter().enumerate().map(|(p, v)| if set.contains(&p) { None } else { v.as_ref().map(|v| v.as_view()) }).collect();
+            // the other operands: contiguous views, or (last variant) permuted / stepped / broadcast views
+            let mut others_laid: Vec<Option<Laid>> = run.inputs.iter().map(|_| None).collect();
+            let mut others_strided = false;
+            if kind == Owned::ExactOthersStrided {
+                for (p, v) in run.inputs.iter().enumerate() {
+                    let Some(v) = v else { continue };
+                    if set.contains(&p) || matches!(v, Value::Sequence(_)) || v.len() == 0 {
+                        continue;
+                    }
+                    let shape = v.shape().to_vec();
+                    let k = [Kind::Permuted, Kind::Stepped, Kind::Mixed, Kind::Broadcast][(hash32(seed, 11 + p as u32) % 4) as usize];
+                    let r = Recipe::derive(k, &shape, &value_const_dims(v), seed ^ (p as u32 * 131), true);
+                    if let Some(l) = lay(v, &r) {
+                        if !l.is_contiguous() {
+                            others_strided = true;
+                        }
+                        others_laid[p] = Some(l);
+                    }
+                }
+                if !others_strided {
+                    continue;
+                }
+            }
+            let views: Vec<Option<ValueView>> = run
+                .inputs
+                .iter()
+                .enumerate()
+                .map(|(p, v)| {
+                    if set.contains(&p) {
+                        None
+                    } else if let Some(l) = &others_laid[p] {
+                        Some(l.view())
+                    } else {
+                        v.as_ref().map(|v| v.as_view())
+                    }
+                })
+                .collect();
+            // Bit-equality can only be demanded when the operands have the same memory layout as in the
+            // normal run; for accumulating kernels (C14's class table) a non-contiguous owned operand may
+            // legitimately select another blocking path and hence another float association order.
+            let any_noncontig = in_place.iter().any(|(_, v)| !is_contiguous_value(v));
+            let mode = if any_noncontig || others_strided { vc_ops::classes::layout_cmp(run.op) } else { FloatCmp::Bits };
             let out = run_op_in_place(run.node, in_place, &views);
             drop(views);
             let kind_tag = if commuted { format!("{}:commuted", kind.name()) } else { kind.name().to_string() };
